@@ -9,7 +9,7 @@ From AGH Require Import Model.Migrate Proofs.Migrate Proofs.MigrateFrame Proofs.
   Proofs.MigrateTable Gen.MigrateTable Proofs.MigrateFrameDns Proofs.MigrateElems
   Model.MigrateLoad Proofs.MigrateLoadable Proofs.MigrateLoadableC Proofs.MigrateLoadableH Proofs.MigrateBack
   Model.MigrateKinds Proofs.MigrateKinds Model.MigrateFootprint Proofs.MigrateFootprint Proofs.MigrateValues
-  Model.MigrateFile Proofs.MigrateFile Model.MigratePorts Proofs.MigratePorts.
+  Model.MigrateFile Proofs.MigrateFile Model.MigratePorts Proofs.MigratePorts Model.MigrateQuic Proofs.MigrateQuic.
 Import ListNotations.
 Local Open Scope string_scope.
 Local Open Scope Z_scope.
@@ -751,3 +751,49 @@ Theorem C13_lone_bind_port_refuted :
   exists a, migrate oracles_lo (Some doc_lone_bind_port) 29 = ONew a /\ doc_ports_ok 29 (norm_obj a) = false.
 Proof. exact lone_bind_port_refuted. Qed.
 Print Assumptions C13_lone_bind_port_refuted.
+
+(** ** Round 7: the grammar of upstream lines at step 10
+
+    [add_quic_port core] (Model/MigrateQuic.v) is [addQUICPort] with the shape
+    of the line in the model ("" and comments, the "[/domain/.../]" prefix cut
+    by [strings.Split] with exactly two parts, "://" required) and the URL
+    code as the oracle [core] on the part after the prefix.  Whatever the core
+    answers, the domain prefix of the line is kept byte for byte, and a line
+    the core leaves alone is returned whole. *)
+Theorem C13_step10_keeps_domain_prefix : forall core s,
+  exists t, add_quic_port core s = (domain_prefix s ++ t)%string.
+Proof. exact step10_keeps_domain_prefix. Qed.
+Print Assumptions C13_step10_keeps_domain_prefix.
+
+Theorem C13_add_quic_port_shape : forall core s,
+  add_quic_port core s = s \/
+  exists rest r, s = (domain_prefix s ++ rest)%string /\ core rest = Some r /\
+                 add_quic_port core s = (domain_prefix s ++ r)%string.
+Proof. exact add_quic_port_shape. Qed.
+Print Assumptions C13_add_quic_port_shape.
+
+Theorem C13_add_quic_port_leaves_alone : forall core s,
+  (forall rest, core rest = None) -> add_quic_port core s = s.
+Proof. exact add_quic_port_leaves_alone. Qed.
+Print Assumptions C13_add_quic_port_leaves_alone.
+
+(** At the element function of step 10. *)
+Theorem C13_quic_elem_keeps_domain_prefix : forall O core s v,
+  quic_elem (with_core O core) (VStr s) = Ok v -> exists t, v = VStr (domain_prefix s ++ t).
+Proof. exact quic_elem_keeps_domain_prefix. Qed.
+Print Assumptions C13_quic_elem_keeps_domain_prefix.
+
+(** REFUTED variant (seeded change C13-M): the two late leave-alone exits
+    return the part after the prefix.  Witness "[/lan/]tls://192.168.1.1". *)
+Theorem C13_drop_prefix_refuted :
+  exists core s, (forall rest, core rest = None) /\ domain_prefix s = "[/lan/]" /\
+    add_quic_port_drop core s = "tls://192.168.1.1" /\
+    ~ exists t, add_quic_port_drop core s = (domain_prefix s ++ t)%string.
+Proof. exact drop_prefix_refuted. Qed.
+Print Assumptions C13_drop_prefix_refuted.
+
+(** ... while on a line without a domain prefix it is the same function. *)
+Theorem C13_drop_same_without_prefix : forall core s,
+  domain_prefix s = EmptyString -> add_quic_port_drop core s = add_quic_port core s.
+Proof. exact drop_same_without_prefix. Qed.
+Print Assumptions C13_drop_same_without_prefix.
